@@ -21,9 +21,11 @@ import sys
 import time
 
 ROOT = os.path.dirname(os.path.dirname(os.path.abspath(__file__)))
+EVDIR = RPDIR = None
 COQ = os.path.join(ROOT, "coq")
 BUILD = os.path.join(ROOT, ".build")
-REPO = "/repo"
+REPO = os.environ.get("VERIF_REPO", "/repo")
+ALT = REPO != "/repo"   # seed testing against a scratch copy of the repository: separate build and output dirs
 sys.path.insert(0, os.path.join(ROOT, "tools"))
 from props import PROPS, TRUSTED_COMMON  # noqa: E402
 
@@ -130,9 +132,17 @@ def theorem_at(path, line):
 
 def build_harness(variant, hooks=True):
     profile, flags = VARIANTS[variant]
-    tdir = os.path.join(BUILD, "target-" + variant)
+    tdir = os.path.join(BUILD, ("target-alt-" if ALT else "target-") + variant)
     env = dict(ENV, CARGO_TARGET_DIR=tdir, RUSTFLAGS=flags)
-    lock = os.path.join(ROOT, "harness", "Cargo.lock")
+    hdir = os.path.join(ROOT, "harness")
+    if ALT:
+        # same harness sources, path dependency redirected to the scratch repository
+        hdir = os.path.join(BUILD, "harness-alt")
+        shutil.rmtree(hdir, ignore_errors=True)
+        shutil.copytree(os.path.join(ROOT, "harness"), hdir, ignore=shutil.ignore_patterns("target"))
+        ct = open(os.path.join(hdir, "Cargo.toml")).read().replace('path = "/repo"', 'path = "%s"' % REPO)
+        open(os.path.join(hdir, "Cargo.toml"), "w").write(ct)
+    lock = os.path.join(hdir, "Cargo.lock")
     if not os.path.exists(lock):
         shutil.copy(os.path.join(REPO, "Cargo.lock"), lock)
     cmd = ["cargo", "build", "--offline"]
@@ -140,7 +150,7 @@ def build_harness(variant, hooks=True):
         cmd.append("--release")
     if hooks:
         cmd += ["--features", "hooks"]
-    rc, out = sh(cmd, cwd=os.path.join(ROOT, "harness"), timeout=900, env=env)
+    rc, out = sh(cmd, cwd=hdir, timeout=900, env=env)
     binp = os.path.join(tdir, "debug" if profile == "dev" else "release", "sds-harness")
     return rc, out, binp
 
@@ -199,6 +209,11 @@ def main():
     os.makedirs(BUILD, exist_ok=True)
     os.makedirs(os.path.join(ROOT, "evidence"), exist_ok=True)
     os.makedirs(os.path.join(ROOT, "replays"), exist_ok=True)
+    global EVDIR, RPDIR
+    EVDIR = os.path.join(BUILD, "alt", "evidence") if ALT else os.path.join(ROOT, "evidence")
+    RPDIR = os.path.join(BUILD, "alt", "replays") if ALT else os.path.join(ROOT, "replays")
+    os.makedirs(EVDIR, exist_ok=True)
+    os.makedirs(RPDIR, exist_ok=True)
     notes, broken = [], []   # broken: list of dicts naming what no longer checks
 
     if replay:
@@ -334,7 +349,7 @@ def main():
     stamp = "%s-%d" % (prop, seed)
     if concrete:
         f = sorted(concrete, key=lambda x: len(x[3]))[0]
-        rp = os.path.join(ROOT, "replays", "%s-%s-%d.json" % (stamp, f[0], f[1]))
+        rp = os.path.join(RPDIR, "%s-%s-%d.json" % (stamp, f[0], f[1]))
         json.dump({"property": prop, "kind": "counterexample", "variant": f[0], "id": f[1], "code": f[2], "seed": seed, "tier": tier,
                    "case": json.loads(f[3]) if f[3].startswith("{") else f[3],
                    "meaning": "implementation output contradicts the naive specification" + (" and the model" if f[2] & 1 else " (model agrees with implementation: model/proof also broken)"),
@@ -344,7 +359,7 @@ def main():
         violations = len(concrete)
         exit_code = 1
     elif model_only or broken:
-        rp = os.path.join(ROOT, "replays", "%s-broken.json" % stamp)
+        rp = os.path.join(RPDIR, "%s-broken.json" % stamp)
         what = []
         for b in broken:
             what.append(b)
@@ -389,7 +404,7 @@ def main():
         ev["coverage"]["coqchk"] = coqchk_note
     if notes:
         ev["coverage"]["notes"] = notes
-    json.dump(ev, open(os.path.join(ROOT, "evidence", prop + ".json"), "w"), indent=1)
+    json.dump(ev, open(os.path.join(EVDIR, prop + ".json"), "w"), indent=1)
     print("%s %s: theorems %d/%d, print-assumptions closed=%d axioms=%s, cases=%d failures=%d known=%d, %.0fs"
           % (prop, tier, discharged, obligations, closed, axioms, evaluations, len(new_fail), len(known_hits), wall))
     sys.exit(exit_code)
